@@ -37,7 +37,14 @@ IterProblems(r) ==
        IN IF want = got /\ Len(r.iter) = Cardinality(Listings(r.files))
           THEN {} ELSE {<<"iter", want \ got, got \ want>>}
 
-Verdict(r) == QueryProblems(r) \cup TotalProblems(r) \cup IterProblems(r)
+\* totals beyond 32 bits (sizes and totals in MiB): the sum of the listed pack sizes of the type
+RECURSIVE SumMib(_, _)
+SumMib(S, t) == IF S = {} THEN 0 ELSE LET x == CHOOSE y \in S : TRUE IN (IF x.t = t THEN x.mib ELSE 0) + SumMib(S \ {x}, t)
+BigProblems(r) ==
+  {<<"bigtotal", r.totals[q]>> : q \in {k \in DOMAIN r.totals :
+      r.totals[k].outcome # "ok" \/ r.totals[k].rem # 0 \/ r.totals[k].mib # SumMib({r.sizes[i] : i \in DOMAIN r.sizes}, r.totals[k].t)}}
+
+Verdict(r) == IF r.kind = "bigtotal" THEN BigProblems(r) ELSE QueryProblems(r) \cup TotalProblems(r) \cup IterProblems(r)
 
 Conforms == Verdict(Rec[l]) = {} \/ PrintT(<<"NONCONF", l, Rec[l].id, Verdict(Rec[l])>>)
 AllConsumed == TLCGet("stats").diameter = Len(Rec)
